@@ -123,16 +123,11 @@ func RunStress(childTest string, f []string) []string {
 	panics := res.Panics
 	detail := res.PanicMsg
 	so := out.String()
+	panicFn := ""
 	if !res.Done && !res.Deadlock && !hung {
-		// died: panic outside recover or a runtime fatal error
+		// died: panic outside recover (in any goroutine) or a runtime fatal error
 		panics++
-		for _, line := range strings.Split(so, "\n") {
-			if strings.HasPrefix(line, "panic:") || strings.HasPrefix(line, "fatal error:") {
-				detail = line
-
-				break
-			}
-		}
+		panicFn, detail = panicSite(so)
 		if detail == "" {
 			detail = "child exited without a result: " + lastLines(so, 5)
 		}
@@ -146,6 +141,8 @@ func RunStress(childTest string, f []string) []string {
 	switch {
 	case deadlocks > 0:
 		why = "deadlock:" + Sanitize(writers(res.Stuck))
+	case panics > 0 && panicFn != "":
+		why = "panic:" + Sanitize(panicFn)
 	case panics > 0:
 		why = "panic:" + Sanitize(detail)
 	case len(keys) > 0:
@@ -453,4 +450,40 @@ func shortRT(f string) string {
 
 		return f
 	}
+}
+
+// panicSite finds, in the output of a process that died, the panic (or fatal
+// error) message and the innermost AdGuard Home function of the panicking
+// goroutine; detail is the message followed by the head of its stack.
+func panicSite(out string) (fn, detail string) {
+	lines := strings.Split(out, "\n")
+	start := -1
+	for i, l := range lines {
+		if strings.HasPrefix(l, "panic:") || strings.HasPrefix(l, "fatal error:") {
+			start = i
+
+			break
+		}
+	}
+	if start < 0 {
+		return "", ""
+	}
+	end := min(len(lines), start+40)
+	for i := start + 1; i < end; i++ {
+		l := lines[i]
+		if i > start+2 && l == "" {
+			// end of the first goroutine
+			end = i
+
+			break
+		}
+		if fn == "" && strings.HasPrefix(l, Internal) && !strings.Contains(l, "c05") && !strings.Contains(l, "C05") && !strings.Contains(l, "/vutil.") {
+			fn = strings.TrimPrefix(l, Internal)
+			if k := strings.LastIndex(fn, "("); k >= 0 {
+				fn = fn[:k]
+			}
+		}
+	}
+
+	return fn, strings.Join(lines[start:end], "\n")
 }
